@@ -30,9 +30,18 @@ RECURSIVE Ren(_, _, _, _)
 Ren(e, L, chain, top) ==
     LET R(x) == Ren(x, L, chain, top)
         RS(xs) == [i \in 1..Len(xs) |-> R(xs[i])]
-    IN CASE e[1] = "ref" -> IF HasDef(chain, 1, top, e[2]) THEN Ref(Q(e[2], MaxDef(chain, 1, top, e[2]))) ELSE e
+    IN CASE e[1] = "ref" -> IF HasDef(chain, 1, top, e[2]) THEN Ref(Q(e[2], MaxDef(chain, 1, top, e[2]))) ELSE e   \* (parameters are not rule names in the families)
          [] e[1] = "super" -> IF HasDef(chain, 1, L - 1, e[2]) THEN Ref(Q(e[2], MaxDef(chain, 1, L - 1, e[2])))
                               ELSE Ref("?undefined")
+         \* super.T(args): a call of the inherited definition of a parameterised rule
+         [] e[1] = "scall" -> IF HasDef(chain, 1, L - 1, e[2])
+                              THEN <<"call", Q(e[2], MaxDef(chain, 1, L - 1, e[2])),
+                                     [i \in 1..Len(e[3]) |-> IF e[3][i][1] = "kw" THEN <<"kw", e[3][i][2], R(e[3][i][3])>>
+                                                             ELSE <<"pos", R(e[3][i][2])>>]>>
+                              ELSE Ref("?undefined")
+         [] e[1] = "call" -> <<"call", IF HasDef(chain, 1, top, e[2]) THEN Q(e[2], MaxDef(chain, 1, top, e[2])) ELSE e[2],
+                               [i \in 1..Len(e[3]) |-> IF e[3][i][1] = "kw" THEN <<"kw", e[3][i][2], R(e[3][i][3])>>
+                                                       ELSE <<"pos", R(e[3][i][2])>>]>>
          [] e[1] \in {"seq", "choice", "skip", "longest"} -> <<e[1], RS(e[2])>>
          [] e[1] \in {"left", "right"} -> <<e[1], R(e[2]), R(e[3])>>
          [] e[1] \in {"opt", "expect", "not"} -> <<e[1], R(e[2])>>
